@@ -90,7 +90,7 @@ def corrupt_check(am):
 def run(rep, ctx):
     rng = random.Random(ctx["seed"] * 7919 + 12)
     big = ctx["tier"] == "thorough"
-    fams = common.random_family(rng, 400 if big else 90, features=dict(history=True), runs=1) + \
+    fams = common.random_family(rng, 400 if big else 90, features=dict(history=True, delete=True), runs=1) + \
         c11.family(rng, 300 if big else 70) + c10.family(rng, 150 if big else 30)
     jobs = []
     for am, engine, runs, _ in fams:
